@@ -1116,7 +1116,7 @@ class xRFM:
         """
 
         metric = Metric.from_name(self.tuning_metric)
-        assert len(targets.shape) == 2 and targets.shape[1] >= 2
+        assert len(targets.shape) == 2 and targets.shape[1] >= 1
         kwargs = dict(y_true_reg=targets)
         if 'y_pred' in metric.required_quantities:
             kwargs['y_pred'] = self._predict_tree(samples.to(self.device), tree).to(targets.device)
